@@ -32,6 +32,7 @@
 #include <xercesc/validators/schema/XMLSchemaDescriptionImpl.hpp>
 #include <xercesc/util/OutOfMemoryException.hpp>
 #include <xercesc/util/SynchronizedStringPool.hpp>
+#include <xercesc/util/VerifHooks.hpp>
 
 namespace XERCES_CPP_NAMESPACE {
 
@@ -247,6 +248,7 @@ void XMLGrammarPoolImpl::serializeGrammars(BinOutputStream* const binOut)
 
     //version information
     serEng<<(unsigned int)XERCES_GRAMMAR_SERIALIZATION_LEVEL;
+    VERIF_EV("XsLevel", "d,v,ok", 0LL, (long long)XERCES_GRAMMAR_SERIALIZATION_LEVEL, 1LL);
 
     //lock status
     serEng<<fLocked;
@@ -303,6 +305,7 @@ void XMLGrammarPoolImpl::deserializeGrammars(BinInputStream* const binIn)
         unsigned int  StorerLevel;
         serEng>>StorerLevel;
         serEng.fStorerLevel = StorerLevel;
+        VERIF_EV("XsLevel", "d,v,ok", 1LL, (long long)StorerLevel, (long long)(StorerLevel == (unsigned int)XERCES_GRAMMAR_SERIALIZATION_LEVEL));
 
         // The storer level must match the loader level.
         //
